@@ -361,6 +361,10 @@ func (run *c07Run) checkCLI(cs *c07Case, o *c07CLIOut) bool {
 	if idx >= 0 && o.TopAll != nil {
 		bad := func(what string, p *c07Proc) {
 			okDirect = false
+			if strings.Contains(what, "entry listed twice") {
+				violation(sig("cli/"+cs.Mode+"/entry-split-in-two"), "an entry that the inputs share by name is listed twice instead of summed — "+what+": "+c07Trunc(string(p.Stdout)), cs)
+				return
+			}
 			violation(sig("cli/report-failed"), what+": "+c07Trunc(p.Stderr+string(p.Stdout)), cs)
 		}
 		if o.TopAll.RC != 0 {
